@@ -197,7 +197,7 @@ def merged_ring_closes(ctx: Context, where: Dict[str, Any]) -> bool:
             if len(members) < 2 or not any(ctx.spanning(i) for i in members):
                 continue
             for start, size in ctx.geo.spans(group):
-                if start + size > ctx.length and size + 2 * rule["nb"] >= ctx.length:
+                if (start + size > ctx.length or size == ctx.length) and size + 2 * rule["nb"] >= ctx.length:
                     return True
     return False
 
@@ -240,7 +240,7 @@ def some_chain_wrap_prone(ctx: Context, _where: Dict[str, Any]) -> bool:
             if rule.get("ext"):
                 _, may = chk.extender_closures(ctx.case, rule, group, ctx.geo)
                 members += sorted(may)
-            if ctx.wrap_prone(members):
+            if ctx.wrap_prone(members) or ctx.wrap_prone(group):
                 return True
     return False
 
@@ -423,7 +423,7 @@ def case_mechanisms(case: Dict[str, Any]) -> List[str]:
                     found.add("origin-spanning-hit-gene")
             if ctx.spanning_member(members):
                 found.add("origin-spanning-gene-in-chain")
-            if ctx.wrap_prone(members):
+            if ctx.wrap_prone(members) or ctx.wrap_prone(group):
                 found.add("wrap-prone")
             for start, size in ctx.crossing_spans(members):
                 if size + 2 * rule["nb"] >= ctx.length:
